@@ -6,6 +6,7 @@ import (
 	"encoding/hex"
 	"encoding/json"
 	"fmt"
+	"regexp"
 	"sort"
 	"strings"
 	"sync"
@@ -56,6 +57,34 @@ func c18Kinds() []c18WalletKind {
 			func(d []byte) (wallet.Wallet, error) { return collection.Loader{}.Load(d) }},
 	}
 }
+
+// c18LegacyKind: a deterministic wallet as an old node wrote it - no cryptoType in its metadata.  Locking such a wallet takes
+// the compatibility branch (default cipher); it must of course unlock again.
+func c18LegacyKind() c18WalletKind {
+	load := func(d []byte) (wallet.Wallet, error) { return deterministic.Loader{}.Load(d) }
+	return c18WalletKind{"deterministic-legacy-file-without-cryptoType", func(crypto.CryptoType) wallet.Wallet {
+		w := newDet(detSeeds[1], 3, crypto.CryptoTypeSha256Xor)
+		ser, err := w.Serialize()
+		must(err)
+		var doc map[string]interface{}
+		must(json.Unmarshal(ser, &doc))
+		meta, ok := doc["meta"].(map[string]interface{})
+		if !ok {
+			panic("fixture: serialised wallet has no meta object")
+		}
+		if _, ok := meta["cryptoType"]; !ok {
+			panic("fixture: serialised wallet has no cryptoType to remove")
+		}
+		delete(meta, "cryptoType")
+		b, err := json.Marshal(doc)
+		must(err)
+		lw, err := load(b)
+		must(err)
+		return lw
+	}, load}
+}
+
+var reCryptoType = regexp.MustCompile(`cryptoType="[^"]*";?`)
 
 type needle struct {
 	What string
@@ -180,6 +209,7 @@ func wrongPasswords(pw string) []string {
 type c18Mode struct {
 	nWrong int
 	heavy  bool
+	legacy bool // wallet loaded from a file without cryptoType: metadata field left out of the restored-state comparison
 }
 
 // c18Secrets runs part (a) for one (wallet kind, cipher, password).
@@ -322,10 +352,16 @@ func c18Secrets(r *engine.Run, k c18WalletKind, ct crypto.CryptoType, pw string,
 			}
 			oc.Add("unlock-same-password-ok")
 			distinct.Add(fmt.Sprintf("unlock-right/%s/%s/%q/%s", k.Name, ct, pw, where))
-			if got := verifState(uw); got != origState {
-				fail("Wallet.Unlock:restored-state-differs", "unlock(same) "+where, "unlocked state differs from the original:\n got %s\nwant %s", got, origState)
+			got, want := verifState(uw), origState
+			if mode.legacy {
+				// a wallet file written before the cryptoType field existed gets the field filled in when it is locked; the
+				// statement speaks of secrets and entries, so the metadata field is left out of the comparison
+				got, want = reCryptoType.ReplaceAllString(got, ""), reCryptoType.ReplaceAllString(want, "")
 			}
-			if ser, err := uw.Serialize(); err != nil || !bytes.Equal(ser, origSer) {
+			if got != want {
+				fail("Wallet.Unlock:restored-state-differs", "unlock(same) "+where, "unlocked state differs from the original:\n got %s\nwant %s", got, want)
+			}
+			if ser, err := uw.Serialize(); err != nil || (!mode.legacy && !bytes.Equal(ser, origSer)) {
 				fail("Wallet.Unlock:restored-serialisation-differs", "unlock(same) "+where, "serialisation after unlock differs from the original (err %v)", err)
 			}
 		}
@@ -440,7 +476,13 @@ func c18(r *engine.Run) {
 	wg.Add(1)
 	go func() {
 		defer wg.Done()
-		engine.ParForN(3, len(defPairs), func(i int) {
+		engine.ParForN(3, len(defPairs)+1, func(i int) {
+			if i == len(defPairs) {
+				// a legacy wallet file (no cryptoType recorded): one Lock / reload / Unlock round with whatever cipher the code picks
+				c18Secrets(r, c18LegacyKind(), "", c18Passwords[0], c18Mode{nWrong: 1, heavy: true, legacy: true}, oc, distinctA)
+				oc.Add("legacy-wallet-lock-unlock")
+				return
+			}
 			p := defPairs[i]
 			c18Secrets(r, kinds[p.k], crypto.CryptoTypeScryptChacha20poly1305, c18Passwords[p.pw], c18Mode{nWrong: 1, heavy: true}, oc, distinctA)
 			oc.Add("default-scrypt-lock-unlock-pair")
